@@ -10,7 +10,7 @@ From V Require Import Base.Int Base.IntLemmas Base.IO Base.Utf8 Model.Scan Model
   Proofs.Utf8 Proofs.Scan Model.Parse Proofs.C13 Proofs.C13Reads Proofs.C13Fmt Proofs.C13Digits Proofs.C13Time
   Proofs.C13Date Proofs.C13View Proofs.C13DateTime Proofs.C13TimeForms Spec.StrftimeDoc Spec.Gregorian.
 From V Require Model.Parsed Model.Format Model.Date Model.Time Model.DateTime Model.Strftime Proofs.C12 Proofs.C12View
-  Proofs.C14 Proofs.C14Date Proofs.C14Iso Proofs.C08Sweeps Proofs.C08.
+  Proofs.C14 Proofs.C14Date Proofs.C14Iso Proofs.C08Sweeps Proofs.C08 Proofs.C08Days Proofs.DateIso.
 Import ListNotations.
 Open Scope Z_scope.
 Ltac Zify.zify_post_hook ::= Z.to_euclidean_division_equations.
@@ -557,13 +557,16 @@ Qed.
 
 (** * F. sufficient combinations, decided on the field record the reader builds *)
 Definition some_b (o : option Z) : bool := match o with Some _ => true | None => false end.
-Definition det_b (y q r : option Z) : bool := some_b y || (some_b q && some_b r).
-Definition grp_b (y q r : option Z) : bool := (negb (some_b y) && negb (some_b q) && negb (some_b r)) || det_b y q r.
-Definition date_comb_b (p : parsed) : bool :=
-  let yd := det_b (p_year p) (p_year_div_100 p) (p_year_mod_100 p) in
-  let idt := det_b (p_isoyear p) (p_isoyear_div_100 p) (p_isoyear_mod_100 p) in
-  grp_b (p_year p) (p_year_div_100 p) (p_year_mod_100 p) &&
-  grp_b (p_isoyear p) (p_isoyear_div_100 p) (p_isoyear_mod_100 p) &&
+(* a year group is determinate: the full year, or century and two-digit year, or the two-digit
+   year alone when the actual year [Y] is in the pivot window 1970..=2069 *)
+Definition det_b (Y : Z) (y q r : option Z) : bool :=
+  some_b y || (some_b q && some_b r) || (negb (some_b q) && some_b r && (1970 <=? Y) && (Y <=? 2069)).
+Definition grp_b (Y : Z) (y q r : option Z) : bool := (negb (some_b y) && negb (some_b q) && negb (some_b r)) || det_b Y y q r.
+Definition date_comb_b (Y IY : Z) (p : parsed) : bool :=
+  let yd := det_b Y (p_year p) (p_year_div_100 p) (p_year_mod_100 p) in
+  let idt := det_b IY (p_isoyear p) (p_isoyear_div_100 p) (p_isoyear_mod_100 p) in
+  grp_b Y (p_year p) (p_year_div_100 p) (p_year_mod_100 p) &&
+  grp_b IY (p_isoyear p) (p_isoyear_div_100 p) (p_isoyear_mod_100 p) &&
   ((yd && some_b (p_month p) && some_b (p_day p)) || (yd && some_b (p_ordinal p))
    || (yd && some_b (p_week_from_sun p) && some_b (p_weekday p))
    || (yd && some_b (p_week_from_mon p) && some_b (p_weekday p))
@@ -576,20 +579,23 @@ Lemma some_b_true o : some_b o = true -> o <> None.
 Proof. destruct o; [discriminate|discriminate]. Qed.
 Lemma some_b_false o : some_b o = false -> o = None.
 Proof. destruct o; [discriminate|reflexivity]. Qed.
-Lemma det_b_sound Y y q r : det_b y q r = true -> Proofs.C14.determinate Y y q r.
+Lemma det_b_sound Y y q r : det_b Y y q r = true -> Proofs.C14.determinate Y y q r.
 Proof.
-  unfold det_b. intros H. apply orb_prop in H. destruct H as [H|H].
+  unfold det_b. intros H. apply orb_prop in H. destruct H as [H|H]; [apply orb_prop in H; destruct H as [H|H]|].
   - left. apply some_b_true. exact H.
   - apply andb_prop in H. destruct H as [H1 H2]. right. left. split; apply some_b_true; assumption.
+  - apply andb_prop in H. destruct H as [H H4]. apply andb_prop in H. destruct H as [H H3].
+    apply andb_prop in H. destruct H as [H1 H2]. right. right.
+    split; [apply some_b_false; destruct (some_b q); [discriminate H1|reflexivity]|]. split; [apply some_b_true; exact H2|lia].
 Qed.
-Lemma grp_b_sound Y y q r : grp_b y q r = true -> Proofs.C14Date.group_ok Y y q r.
+Lemma grp_b_sound Y y q r : grp_b Y y q r = true -> Proofs.C14Date.group_ok Y y q r.
 Proof.
   unfold grp_b. intros H. apply orb_prop in H. destruct H as [H|H].
   - left. apply andb_prop in H. destruct H as [H H3]. apply andb_prop in H. destruct H as [H1 H2].
     repeat split; apply some_b_false; [destruct (some_b y)|destruct (some_b q)|destruct (some_b r)]; try reflexivity; discriminate.
   - right. apply det_b_sound. exact H.
 Qed.
-Lemma date_comb_sound Y IY p : date_comb_b p = true ->
+Lemma date_comb_sound Y IY p : date_comb_b Y IY p = true ->
   Proofs.C14Date.group_ok Y (p_year p) (p_year_div_100 p) (p_year_mod_100 p) /\
   Proofs.C14Date.group_ok IY (p_isoyear p) (p_isoyear_div_100 p) (p_isoyear_mod_100 p) /\
   Proofs.C14Date.combination_present Y IY p.
@@ -672,7 +678,7 @@ Theorem general_date_roundtrip y o d items texts ws :
   Proofs.C08Sweeps.repr y o d ->
   Forall2 (doc_item (sv_of_date (dn_of_yo y o)) None) items texts ->
   unambiguous_b (combine items texts) [] = Some ws ->
-  date_comb_b (apply_ws ws parsed_new) = true ->
+  date_comb_b y (fst (iso_of_dn (dn_of_yo y o))) (apply_ws ws parsed_new) = true ->
   Model.Format.write_items (Model.Format.fa_of_date d) items [] = Model.Format.fok (concat texts) /\
   (let+ p := parse parsed_new (concat texts) items in pr_of (to_naive_date p)) = pok d.
 Proof.
@@ -680,7 +686,9 @@ Proof.
   destruct (general_core (Model.Format.fa_of_date d) sv None items texts ws (args_view_date y o d H)
               ltac:(cbn; lia) ltac:(intros n Hc; discriminate Hc) HF HU) as (Hw & Hp & Hrun & E & T).
   split; [exact Hw|]. rewrite Hp, Hrun. cbn [pbind bind pok]. unfold pr_of.
-  destruct (Proofs.C14Iso.fact_iso_week_total y o d H) as (iw & Hiw & _).
+  destruct (Proofs.DateIso.d_iso_week_spec y o d H) as (Hiw & Eiy & _). cbv zeta in Hiw, Eiy.
+  set (iw := Proofs.DateIso.mkweek (fst (iso_of_dn (dn_of_yo y o))) (snd (iso_of_dn (dn_of_yo y o)))) in *.
+  rewrite <- Eiy in HC.
   destruct (date_comb_sound y (Model.Date.iw_year iw) _ HC) as (G1 & G2 & C).
   rewrite (resolve_date_view y o d iw _ (gview sv None) H Hiw T
              (gview_date_sound sv None d (dn_of_yo y o) eq_refl (Proofs.C12View.date_view_of_repr y o d H)) E G1 G2 C).
@@ -761,7 +769,7 @@ Theorem general_ndt_roundtrip y o d t on items texts ws :
   Proofs.C08Sweeps.repr y o d -> valid_time t -> (forall n, on = Some n -> 0 <= n <= 999999999) ->
   Forall2 (doc_item (sv_of_ndt (dn_of_yo y o) t) on) items texts ->
   unambiguous_b (combine items texts) [] = Some ws ->
-  date_comb_b (apply_ws ws parsed_new) = true -> time_comb_b (apply_ws ws parsed_new) = true ->
+  date_comb_b y (fst (iso_of_dn (dn_of_yo y o))) (apply_ws ws parsed_new) = true -> time_comb_b (apply_ws ws parsed_new) = true ->
   Model.Format.write_items (Model.Format.fa_of_ndt (Model.DateTime.mk_ndt d t)) items [] = Model.Format.fok (concat texts) /\
   (let+ p := parse parsed_new (concat texts) items in pr_of (to_naive_datetime_with_offset p 0)) =
     pok (Model.DateTime.mk_ndt d (time_kept (apply_ws ws parsed_new) t)) /\
@@ -775,7 +783,9 @@ Proof.
   destruct (time_resolution sv on t p eq_refl eq_refl Hvt Hon E HCt) as (Ht & V4 & V5 & Hsec).
   split; [exact Hw|]. split; [|split; assumption].
   rewrite Hp, Hrun. cbn [pbind bind pok]. unfold pr_of.
-  destruct (Proofs.C14Iso.fact_iso_week_total y o d H) as (iw & Hiw & _).
+  destruct (Proofs.DateIso.d_iso_week_spec y o d H) as (Hiw & Eiy & _). cbv zeta in Hiw, Eiy.
+  set (iw := Proofs.DateIso.mkweek (fst (iso_of_dn (dn_of_yo y o))) (snd (iso_of_dn (dn_of_yo y o)))) in *.
+  rewrite <- Eiy in HCd.
   destruct (date_comb_sound y (Model.Date.iw_year iw) _ HCd) as (G1 & G2 & C).
   pose proof (resolve_date_view y o d iw p (gview sv on) H Hiw T
              (gview_date_sound sv on d (dn_of_yo y o) eq_refl (Proofs.C12View.date_view_of_repr y o d H)) E G1 G2 C) as Ed.
@@ -816,11 +826,12 @@ Proof. intros H n ->. cbn in H. lia. Qed.
 
 (* the whole hypothesis set of [general_ndt_roundtrip] as one computable test *)
 Definition general_ndt_check (dn : Z) (t : Model.Time.ntime) (on : option Z) (items : list Item) : bool :=
+  let Y := year_of_dn dn in let IY := fst (iso_of_dn dn) in
   on_ok on &&
   match doc_texts (sv_of_ndt dn t) on items with
   | Some texts =>
       match unambiguous_b (combine items texts) [] with
-      | Some ws => date_comb_b (apply_ws ws parsed_new) && time_comb_b (apply_ws ws parsed_new)
+      | Some ws => date_comb_b Y IY (apply_ws ws parsed_new) && time_comb_b (apply_ws ws parsed_new)
       | None => false
       end
   | None => false
@@ -835,6 +846,9 @@ Proof.
   destruct (doc_texts (sv_of_ndt (dn_of_yo y o) t) on items) as [texts|] eqn:Ed; [|discriminate HC].
   destruct (unambiguous_b (combine items texts) []) as [ws|] eqn:Eu; [|discriminate HC].
   apply andb_prop in HC. destruct HC as [C1 C2].
+  assert (EY : year_of_dn (dn_of_yo y o) = y).
+  { unfold year_of_dn. rewrite (Proofs.C08Days.yo_of_dn_of_yo y o (proj1 (proj2 H))). reflexivity. }
+  rewrite EY in C1.
   destruct (general_ndt_roundtrip y o d t on items texts ws H Hvt (on_ok_sound on Ho) (doc_texts_sound _ _ _ _ Ed) Eu C1 C2)
     as (Hw & Hp & _).
   eexists; eexists. split; [exact Hw|exact Hp].
@@ -854,5 +868,10 @@ Example ex_general_member :
   general_ndt_check (dn_of_yo 2015 365) (Model.Time.mk_time 0 0) None
     [num0 N_Year; num0 N_Month; num0 N_Day; num0 N_Hour; num0 N_Minute] = true /\
   general_ndt_check (dn_of_yo 2015 36) (Model.Time.mk_time 0 0) None
-    [num0 N_Year; Literal [45]; num N_Month; num0 N_Day; Space [32]; num0 N_Hour; Literal [58]; num0 N_Minute] = false.
+    [num0 N_Year; Literal [45]; num N_Month; num0 N_Day; Space [32]; num0 N_Hour; Literal [58]; num0 N_Minute] = false /\
+  (* the two-digit year alone is sufficient inside the pivot window 1970..=2069 only *)
+  general_ndt_check (dn_of_yo 2015 36) (Model.Time.mk_time 0 0) None
+    [num0 N_YearMod100; Literal [45]; num0 N_Month; Literal [45]; num0 N_Day; Space [32]; num0 N_Hour; Literal [58]; num0 N_Minute] = true /\
+  general_ndt_check (dn_of_yo 1969 36) (Model.Time.mk_time 0 0) None
+    [num0 N_YearMod100; Literal [45]; num0 N_Month; Literal [45]; num0 N_Day; Space [32]; num0 N_Hour; Literal [58]; num0 N_Minute] = false.
 Proof. vm_compute. repeat split. Qed.
